@@ -15,7 +15,7 @@ use crate::{
 fn describe(ctx: &mut Ctx) {
     let vec_gen = "proptest-generated VecCase = (capacity, initial vector, optional probe subscriber, initial subscriber specs, <= 24 operations, final drop): operations are the eleven mutators, entry ops, for_each/entries traversals, transactions (with rollback, and subscriber drops/polls inside), mid-history subscriptions, limit changes, polls (once / k / until Pending), subscriber drops; indices are fractions resolved at run time; a third of the cases poll every stream with one shared waker; half of the subscriber handles are converted to streams only at their first poll. Interpreted against the real library and a plain-Vec model, taps at every adapter boundary. Distinct = distinct serialised case. ";
     let obs_gen = "proptest-generated ObsCase = (flavour, unique/shared start, initial value, <= 30 calls over every public entry point incl. guards held across calls (sync) and handle operations); value = (key, payload) with Eq on both and Hash on key only; every return value and poll result compared with a version-free model after every call; a third of the cases use one shared waker. Distinct = distinct serialised case. ";
-    let thr = "Thread engine: fixed 2-3 thread programs whose complete release-order space at the __verif_hooks pause points is enumerated by stateless DFS (each schedule = one evaluation), proptest-generated directed programs (<= 3 threads x <= 3 ops, random schedule prefix), and proptest-generated free-running programs (2-4 threads x <= 6 ops, each executed 40 times on one set of worker threads; counted in thread_executions_judged). ";
+    let thr = "Thread engine: fixed 2-3 thread programs whose complete release-order space at the __verif_hooks pause points is enumerated by stateless DFS (each schedule = one evaluation), proptest-generated directed programs (<= 3 threads x <= 3 ops, random schedule prefix), and proptest-generated free-running programs (2-4 threads x <= 6 ops, each executed 60 times on one set of worker threads; counted in thread_executions_judged). ";
     let (rule, assumptions): (String, Vec<&str>) = match ctx.prop {
         Prop::C01 => (format!("{obs_gen}Plus every history of <= 4 (quick) / 5 (thorough) calls from a 14-call alphabet (enumerated). Non-trivial = the history contains a conditional setter that did not store, a poll that became ready after >= 2 intervening updates, and a get/next_now followed by a poll of the same subscriber."), vec!["std's DefaultHasher::new() is keyed with constants (the harness computes the same hash)"]),
         Prop::C02 => (format!("{obs_gen}{thr}Oracle: after every notifying update / closing drop the latest Pending waker of every pending subscriber has fired (single thread), and no poll returns Ready after a Pending poll whose waker was not woken since (all engines). Non-trivial (single thread) = >= 2 subscribers pending at the moment of an update or close; (threads) = a poll that returned Ready after a Pending poll of the same subscriber."), vec!["between pause points the OS schedules; a thread not reaching a pause point within 15 ms is presumed blocked (affects only which schedule is explored)"]),
@@ -507,9 +507,9 @@ fn thr_phases(ctx: &mut Ctx) {
     ctx.random("directed-generated-programs", "thr", &|| engine_thr::case(true, 3, 3), &run, n);
     ctx.threads = saved.min(8);
     // free-running rounds
-    // free-running: every generated program is executed 40 times on one set of worker threads
-    let run_free = move |c: &ThrCase| engine_thr::run_reps(c, prop, 40);
-    let n = ctx.pick(4_000, 200_000);
+    // free-running: every generated program is executed 60 times on one set of worker threads
+    let run_free = move |c: &ThrCase| engine_thr::run_reps(c, prop, 60);
+    let n = ctx.pick(6_000, 200_000);
     ctx.random("free-running", "thr", &|| engine_thr::case(false, 4, 6), &run_free, n);
     ctx.threads = saved;
 }
